@@ -1,0 +1,13 @@
+//go:build verif
+
+package pptx
+
+// Contracts for gocv (comment-only; see /verif/DESIGN.md).  No executable code.
+
+// ---- C18: slides are presented in the order the presentation declares (p:sldIdLst through the relationships) ----
+// must-read frame obligation: the order of r.slides can only follow the declared order if the function that
+// builds it (or a callee on the same receiver) reads the parsed presentation and its relationships.
+//@ func (*Reader) parseSlides
+//@   property C18
+//@   flags frameonly
+//@   mustread presentation
